@@ -75,11 +75,63 @@ def fails_now(x: dict) -> bool:
     return judge(c, pipeline([c])[0]) is not None
 
 
+def meta_impl(text: str) -> dict:
+    """the real attribute parser, and whether compile() hands the text to the SsbScript compiler"""
+    from explorerscript.ssb_converting.compiler.meta_attributes import parse_exps_meta_attributes, ExpsMetaAttributes
+    import explorerscript.ssb_converting.ssb_compiler as sc
+    from core import PERF
+
+    attrs = parse_exps_meta_attributes(text)
+    used = []
+    orig = sc.SsbScriptSsbCompiler
+
+    class Spy(orig):  # type: ignore
+        def compile(self, *a, **k):  # noqa
+            used.append(1)
+            return super().compile(*a, **k)
+    sc.SsbScriptSsbCompiler = Spy  # type: ignore
+    try:
+        try:
+            sc.ExplorerScriptSsbCompiler(PERF).compile(text, "/nonexistent/meta.exps")
+        except BaseException as e:  # noqa
+            if isinstance(e, (KeyboardInterrupt, SystemExit)):
+                raise
+    finally:
+        sc.SsbScriptSsbCompiler = orig  # type: ignore
+    return {"ok": True, "attrs": {k: v for k, v in attrs.items()}, "dispatch": bool(used),
+            "key": ExpsMetaAttributes.IsSsbScript}
+
+
+def meta_cases(r, n: int) -> list[str]:
+    ws = [" ", " ", "", "\t", "\xa0", "\u2003", "  "]
+    brk = ["\n", "\n", "\r\n", "\r", "\x0b", "\x0c", "\x1c", "\x85", "\u2028"]
+    keys = ["is-ssb-script", "is-ssb-script", "other", "is ssb script", "", "a:b", "//?", "is-ssb-script "]
+    vals = ["true", "1", "false", "0", "True", " true ", "", "true:", "yes // x", "1 "]
+    out = []
+    for _ in range(n):
+        lines = []
+        for _ in range(r.randint(0, 4)):
+            k = r.random()
+            if k < 0.6:
+                lines.append(r.choice(ws) + r.choice(["//?:", "//?:", "// ?:", "//?", "x //?:", "//?://?:"]) + r.choice(ws) + r.choice(keys) + r.choice(ws)
+                             + r.choice([":", ":", "", "::"]) + r.choice(ws) + r.choice(vals) + r.choice(ws))
+            elif k < 0.75:
+                lines.append("// WARNING:")
+            elif k < 0.85:
+                lines.append("")
+            else:
+                lines.append("def 0 { a(); }")
+        txt = "".join(ln + r.choice(brk) for ln in lines) + r.choice(["", "def 0 {\n    end;\n}\n", "def 0 {\n    Return();\n}\n", "x"])
+        out.append(txt)
+    return out
+
+
 def main() -> None:
     run = Run("C06", "translation_validation")
     run.forbid()
-    run.require_vo(["Script/Model.v"])
+    run.require_vo(["Script/Model.v", "Text/Meta.v", "Text/MetaProofs.v"])
     run.props("Props/C07.v")
+    run.props("Props/C06.v")
     q = run.tier == "quick"
     import core
     core.set_case_timeout(6)
@@ -121,6 +173,45 @@ def main() -> None:
             continue
         seen.add(sig)
         run.fail(sig, swhy, {"case": c.name, "input": cur, "text": d.get("text"), "original_input": {"ops": c.ops, "infos": c.infos, "coros": c.coros}})
+    # the marker: every fallback text starts with the two lines the theorem C06_fallback_is_dispatched is about, and the
+    # model of the attribute parser / the dispatch (Text/Meta.v) agrees with the real ones (K-meta)
+    from core import A, run_driver
+    import random as _random
+    mr = _random.Random(f"C06-meta-{run.seed}")
+    mc = meta_cases(mr, 500 if q else 8000) + [rec["dec"]["text"] for rec in recs if rec["comp"] is not None and rec["dec"]["ok"]][:50]
+    mimpl = run_impl([("checks.c06:meta_impl", t) for t in mc])
+    mmod = run_driver([[A("meta"), [ord(ch) for ch in t]] for t in mc])
+    t2s = lambda cps: "".join(chr(x) for x in cps)  # noqa: E731
+    mfirst = None
+    head = None
+    for t, im, mo in zip(mc, mimpl, mmod):
+        diff = None
+        if not im.get("ok") or mo.get("r") != "ok":
+            diff = "failed"
+        else:
+            head = t2s(mo["head"])
+            mattrs = {}
+            for k, v in reversed(mo["attrs"]):
+                mattrs[t2s(k)] = t2s(v)
+            if mattrs != im["attrs"]:
+                diff = "parse_meta vs parse_exps_meta_attributes"
+            elif mo["dispatch"] != im["dispatch"]:
+                diff = "dispatches_to_ssbscript vs the compiler actually used by compile()"
+        run.count("K-meta:" + ("ok" if diff is None else "DIFF"))
+        run.count("K-meta dispatch:" + str(im.get("dispatch")))
+        if diff and mfirst is None:
+            mfirst = (diff, {"text": t, "impl": im, "model": mo})
+    if mfirst is not None:
+        run.correspondence_broken("K-meta (Text/Meta.v)", mfirst[0], mfirst[1])
+    nfb = 0
+    for c, rec in zip(cases, recs):
+        if rec["comp"] is not None and rec["dec"]["ok"] and head is not None:
+            nfb += 1
+            if not rec["dec"]["text"].startswith(head):
+                run.correspondence_broken("K-meta (Text/Meta.v FALLBACK_HEAD)", "a fallback text does not start with the two lines the theorem is about",
+                                          {"input": c.ops, "text": rec["dec"]["text"][:200]})
+                break
+    run.count("fallback texts starting with FALLBACK_HEAD", nfb)
     run.assume("'never raises' is established by execution on generated inputs only (the structuring passes are not modelled)")
     run.finish(rule="G_ssb (compiler outputs, re-layouts, random op lists) plus hand-written hard flow graphs (irreducible loops, jumps "
                     "into blocks, cross-routine-only routines, shared case bodies); every input under a timeout")
